@@ -20,6 +20,9 @@ for p in props:
     try:
         mod = importlib.import_module(pid.lower())
         m = mod.MANIFEST
+        src = open(os.path.join(ROOT, 'coq', 'Props', pid + '.v')).read()
+        if 'placeholder' in src:
+            raise RuntimeError('Props file is a placeholder')
     except Exception as e:
         na.append({'property_id': pid, 'reason': na_reasons.get(pid, 'not yet claimed: model and proof for this property are not built yet (work in progress, see DESIGN.md section 9)')})
         continue
